@@ -452,7 +452,7 @@ func c02Run(c *vcore.Ctx) *vcore.Violation {
 	var calls []*c02sys
 	var script []string
 	var expects []c02expect
-	ncalls := 1 + src.Int(6, "ncalls")
+	ncalls := 3 + src.Int(12, "ncalls") // (a traced call is cheap next to the launch: many per run)
 	for i := 0; i < ncalls; i++ {
 		if i > 0 && src.Bool(1, 4, "chdir_between") {
 			// the program changes its working directory between two calls, by path or through one of its
@@ -573,7 +573,7 @@ func pathFeatures(e c02expect, root string) string {
 func init() {
 	register(&vcore.Prop{
 		ID: "C02", Level: "exploration", Worlds: "K",
-		Rule:       "one run = one symlink forest (4 directories, 4 files, 2..6 links with relative/absolute/looping/dangling targets), a tracee cwd and two directory descriptors, and 1..6 traced path system calls (25 kinds incl. *at variants, flag words, AT_SYMLINK_NOFOLLOW/FOLLOW, open_how readable or not) over path strings of 1..5 components with '.', '..', doubled and trailing slashes, absolute or relative, with dirfd registers encoded as AT_FDCWD sign-/zero-/garbage-extended or as a descriptor with garbage in the upper half; every call is soft-banned. While the tracee is stopped in the call the harness resolves the same pair through /proc/<pid>/{cwd,fd} with O_PATH and compares path and access class. distinct = hash of the call kinds; all runs non-trivial. The schedule dimension is degenerate for this property (tracee stopped while the handler runs)",
+		Rule:       "one run = one symlink forest (4 directories, 4 files, 2..6 links with relative/absolute/looping/dangling targets), a tracee cwd and two directory descriptors, and 3..14 traced path system calls (25 kinds incl. *at variants, flag words, AT_SYMLINK_NOFOLLOW/FOLLOW, open_how readable or not) over path strings of 1..5 components with '.', '..', doubled and trailing slashes, absolute or relative, with dirfd registers encoded as AT_FDCWD sign-/zero-/garbage-extended or as a descriptor with garbage in the upper half; every call is soft-banned. While the tracee is stopped in the call the harness resolves the same pair through /proc/<pid>/{cwd,fd} with O_PATH and compares path and access class. distinct = hash of the call kinds; all runs non-trivial. The schedule dimension is degenerate for this property (tracee stopped while the handler runs)",
 		Components: kComponents, Assumptions: append([]string{"a consultation CheckSyscall(\"procfs-path\") instead of a path query is accepted for procfs object references (explicit fail-closed policy)", "calls whose kernel resolution fails are outside the quantifier"}, kAssume...), NeedNS: true,
 		Quick:    vcore.Budget{Wall: 30 * time.Second, Shards: 16},
 		Thorough: vcore.Budget{Wall: 12 * time.Minute, Shards: 16},
